@@ -107,7 +107,7 @@ def in_slice(scn):
     if set(scn["adj"]) - {"channel_request_lookahead", "send_bytes", "outbuf_high_watermark"}:
         return False
     for v in scn.get("apps", {}).values():
-        if set(v) - {"chunks", "cl", "write", "raise_at", "raise"} or v.get("cl", "exact") not in ("exact", "none", "larger") or "sync" in v.get("chunks", []):
+        if set(v) - {"chunks", "cl", "write", "raise_at", "raise"} or v.get("cl", "exact") not in ("exact", "none", "larger") or "sync" in v.get("chunks", []) or "peer" in v.get("chunks", []):
             return False
     if c[0].get("faults") and any(r.get("kind") == "expect" for r in reqs):
         return False      # an error inside send_continue's flush leaves received()/service(): not modelled
@@ -325,6 +325,8 @@ def mc_scenarios(thorough):
          ("producer above the mark, a later send fails", "C13 C12",
           M(sends=[[R(1)]], writes=[[2, 2]], ops=[SEND, O("read", -1, 1)], room=1, hwm=1, sfaults=["ok", "ok", "ok", "hard"]),
           M(sends=[[R(1)]], writes=[[2, 2, 2]], ops=[SEND, O("read", 1, 1), O("read", -1, 2)], room=1, hwm=1, sfaults=["ok", "ok", "ok", "ok", "hard"])),
+         ("a send of the I/O thread fails while the worker is paused between two requests, la=1", "C11 only",   # (reproduces known finding K-C11-...)
+          M(sends=[[R(1), R(2)]], writes=[[3], [1]], ops=[SEND, O("read", 1, 2)], room=1, hwm=1, sfaults=["ok", "ok", "ok", "hard"], lookahead=1), None),
          ("second recv fails while the first request runs, la=1", "C13 C11",
           M(sends=[[R(1)], [R(2)]], writes=[[2, 1], [1]], ops=[SEND, SEND], rfaults=["ok", "hard"], lookahead=1), None),
          ("recv reports a disconnect errno with a request queued, la=1", "C13",
@@ -363,7 +365,7 @@ def model_check(chk, pid, scns=None, n_traces=None):
             return tlc.run("MC_Chan", text, workdir=wd, workers=5, timeout=3000)
         finally:
             shutil.rmtree(wd, ignore_errors=True)
-    items = [it for it in mc_scenarios(chk.thorough) if chk.thorough or pid in it[2].split()]
+    items = [it for it in mc_scenarios(chk.thorough) if (chk.thorough and "only" not in it[2].split()) or pid in it[2].split()]
     with cf.ThreadPoolExecutor(3) as ex:
         for item, r in zip(items, ex.map(mc, items)):
             chk.add_tlc("MC:Channel %s" % item[1], r, "every interleaving at visible-operation granularity" + ("; safety invariants + liveness (comes to rest under fair scheduling)" if item[3] else "; safety invariants"))
